@@ -141,6 +141,47 @@ def getDocstring (bases : Nat → List Nat) (ext : Nat → Bool) (owns hasDoc : 
     (c name : Nat) : Option Nat :=
   (docsources bases ext owns c name).find? (fun b => hasDoc b name)
 
+/-! ### `compute_mro.init_finalbaseobjects`: the second pass of base resolution
+
+What the AST pass left behind for class `o`: `raw o` the base names as written, `initial o` =
+`_initialbaseobjects` (`none` where the name could not be resolved yet, e.g. inside an import
+cycle), `scope o` = `o.parent`; `resolve sc name` = `sc.resolveName(name)` when that is a `Class`.
+`who cls o` is the scope in which a still unresolved base name of `o` is looked up while the MRO of
+`cls` is being computed: the code uses `o.parent` (`who = fun _ o => scope o`). -/
+structure Decls where
+  scope : Nat → Nat
+  raw : Nat → List Nat
+  initial : Nat → List (Option Nat)
+  resolve : Nat → Nat → Option Nat
+
+/-- the loop body `for (str_base, _), base in zip(o.rawbases, o._initialbaseobjects)`: keep a
+resolved base, otherwise `resolveName` in scope `sc` -/
+def finalOf (d : Decls) (sc o : Nat) : List (Option Nat) :=
+  List.zipWith (fun n i => match i with | some b => some b | none => d.resolve sc n) (d.raw o) (d.initial o)
+
+abbrev Cache := List (Nat × List (Option Nat))
+
+def Cache.get (c : Cache) (o : Nat) : Option (List (Option Nat)) := (c.find? (·.1 == o)).map (·.2)
+
+/-- `init_finalbaseobjects(o, path)` while computing the MRO of `cls`; `_finalbaseobjects` of all
+classes is the cache (`if o._finalbaseobjects is not None: return`; nothing is stored when
+`o.rawbases` is empty).  Fuel bounds the depth (acyclic hierarchies; the path check is not modelled). -/
+def initFinal (d : Decls) (who : Nat → Nat → Nat) (cls : Nat) : Nat → Nat → Cache → Cache
+  | 0, _, cache => cache
+  | f+1, o, cache =>
+    match cache.get o with
+    | some _ => cache
+    | none =>
+      if (d.raw o).isEmpty then cache
+      else
+        let fb := finalOf d (who cls o) o
+        let cache' := fb.foldl (fun c b => match b with | some b => initFinal d who cls f b c | none => c) cache
+        (o, fb) :: cache'
+
+/-- `defaultPostProcess`: `_init_mro` for every class in turn -/
+def secondPass (d : Decls) (who : Nat → Nat → Nat) (fuel : Nat) (triggers : List Nat) : Cache :=
+  triggers.foldl (fun c cls => initFinal d who cls fuel cls c) []
+
 end Mro
 
 namespace PyMro
